@@ -6,7 +6,9 @@ open Cppcheck.Wire Cppcheck.Shell Cppcheck.GccArgs
 /-
 C32 driver.  One op per line:
   split <hexcmd>                      -> ok <hexarg>* | err
-  quote {<b|d|s|x>:<pad>:<hexarg>}*   -> <hexcmd> <argOk:0|1>        (the model's `Shell.quote`)
+  quote {<b|d|s|x|e>:<pad>:<hexarg>}* -> <hexcmd> <argOk:0|1>        (the model's `Shell.quote`)
+  qcmd {<pad>/<sty>:<hex>{+<sty>:<hex>}*}*
+                                      -> <hexcmd> <segsOk:0|1> <hexarg>*   (`Shell.quoteCmd`, `segsOk`, `segText`)
   parse <hexarg>*                     -> I <list> | S <list> | D <hex> | U <list> | T <hex>
   spec <hexarg>*                      -> same line for `Spec.gcc`, followed by ` | clean <0|1> defok <0|1>`
   defs <hex>                          -> <hex>                       (`fsSetDefines`)
@@ -35,7 +37,7 @@ def hexAll : List String → Option (List Str)
     | _, _ => none
 
 def styleOf : String → Option Style
-  | "b" => some .bare | "d" => some .dq | "s" => some .sq | "x" => some .shlex | _ => none
+  | "b" => some .bare | "d" => some .dq | "s" => some .sq | "x" => some .shlex | "e" => some .esc | _ => none
 
 def quoteItems : List String → Option (List (Style × Nat × Str))
   | [] => some []
@@ -45,6 +47,26 @@ def quoteItems : List String → Option (List (Style × Nat × Str))
       match styleOf st, pad.toNat?, fromHex h, quoteItems r with
       | some st, some pad, some a, some t => some ((st, pad, a) :: t)
       | _, _, _, _ => none
+    | _ => none
+
+def segItems : List String → Option (List (Style × Str))
+  | [] => some []
+  | s :: r =>
+    match s.splitOn ":" with
+    | [st, h] =>
+      match styleOf st, fromHex h, segItems r with
+      | some st, some a, some t => some ((st, a) :: t)
+      | _, _, _ => none
+    | _ => none
+
+def cmdItems : List String → Option (List (Nat × List (Style × Str)))
+  | [] => some []
+  | s :: r =>
+    match s.splitOn "/" with
+    | [pad, segs] =>
+      match pad.toNat?, segItems (segs.splitOn "+"), cmdItems r with
+      | some pad, some sg, some t => some ((pad, sg) :: t)
+      | _, _, _ => none
     | _ => none
 
 open Cppcheck.GccArgs.Import in
@@ -128,6 +150,10 @@ def step (line : String) : String :=
   | "quote" :: items =>
     match quoteItems items with
     | some l => toHex (quote l) ++ " " ++ boolStr (l.all argOk)
+    | none => "bad-op"
+  | "qcmd" :: items =>
+    match cmdItems items with
+    | some l => " ".intercalate (toHex (quoteCmd l) :: boolStr (l.all segsOk) :: l.map fun x => toHex (segText x.2))
     | none => "bad-op"
   | "parse" :: hs =>
     match hexAll hs with
